@@ -317,6 +317,35 @@ def search(ctx):
                      match={'symptom': 'integral!=1', 'classes': [e.name.split('/')[0]]})
         if len(ctx.failing) >= 4 or ctx.elapsed() > 600:
             return
+    # more than one dimension: no quadrature; the equivalent clause of the property instead — log_prob(x) is the base log-density at the
+    # transformed point plus log|det| of the Jacobian of the transform ACTUALLY computed (autograd), point by point
+    for D in (2, 3):
+        for ck, cf in (('none', None), ('rows', 2)):
+            for e in stage_pool(D, cf):
+                if (e.ctx is None) != (cf is None):
+                    continue
+                try:
+                    flow, stages, mods, base, bk, emb, rawc = build_flow(ctx, gen, rng, D, ck, e)
+                    x = 1.2 * torch.randn(3, D, generator=gen, dtype=torch.float64)
+                    c = torch.randn(3, rawc, generator=gen, dtype=torch.float64) if rawc else None
+                    with torch.no_grad():
+                        lp = flow.log_prob(x, c) if c is not None else flow.log_prob(x)
+                    for i in range(3):
+                        ci = c[i:i + 1] if c is not None else None
+                        f = (lambda a: flow._transform(a[None], flow._embedding_net(ci))[0][0]) if ci is not None else (lambda a: flow._transform(a[None])[0][0])
+                        J = torch.autograd.functional.jacobian(f, x[i])
+                        z = f(x[i]).detach()[None]
+                        bl = flow._distribution.log_prob(z, flow._embedding_net(ci) if (ci is not None and bk == 'cond') else None)
+                        want = float(bl) + float(torch.slogdet(J)[1])
+                        if not abs(want - float(lp[i])) <= 1e-6 * (1 + abs(want)):
+                            ctx.fail('log_prob(x) = %.9g but base log-density at the transformed point + log|det Jacobian| = %.9g: exp(log_prob) is not the push-forward density'
+                                     % (float(lp[i]), want), {'program': [e.name], 'base': bk, 'context': ci.tolist() if ci is not None else None, 'D': D, 'x': x[i].tolist()},
+                                     match={'symptom': 'logprob!=pushforward', 'classes': [e.name.split('/')[0]]})
+                            break
+                except Exception as ex:
+                    continue
+                if len(ctx.failing) >= 4 or ctx.elapsed() > 700:
+                    return
     tried = 0
     while tried < (25 if ctx.quick() else 150) and ctx.elapsed() < 900 and len(ctx.failing) < 4:
         D = 1   # quadrature accurate enough to decide the property is only attempted on the line
